@@ -492,9 +492,10 @@ class SeedStream(Stream):
 
 
 import c10s6      # noqa: E402  (needs the classes above)
+import c10t2      # noqa: E402
 
 PROPERTY = Property(
     pid="C10",
-    streams=[TheoremStream(), Theorem2Stream(), StyleTableStream(), annotcorr.CommentAtStream(), annotcorr.CreateCommentStream(), CliStream(), SeedStream()] + c10s6.STREAMS,
+    streams=[TheoremStream(), Theorem2Stream(), StyleTableStream(), annotcorr.CommentAtStream(), annotcorr.CreateCommentStream(), CliStream(), SeedStream()] + c10s6.STREAMS + c10t2.STREAMS,
     assumptions=[],
 )
